@@ -117,13 +117,20 @@ PROPS = {
                         "harness stand-ins (record calls only) for Context, Comptime, Token, TokenRange, unsafe_table::contains, AnalyzerError::mismatch_clock_domain, ClockDomain::to_string"],
     },
     "C21": {
-        "units": ["npn"],
+        "units": ["npn", "aigmap"],
         "level": "proof",
         "clause": "npn4.rs: ALL_PERMS is exactly the 24 permutations; perm_tt / flip_inputs / NpnTransform::apply are the documented action on Boolean functions of 4 variables for every "
                   "truth table (Kani, full u16 domain); npn_canonical(tt) returns a transform t with t.apply(tt) == canonical and canonical <= T.apply(tt) for all 768 transforms T "
                   "(least truth table of the NPN class; Verus loop invariant), the perm_table initialiser meets its documented contract; transform_pattern(pat,t).tt() == t.apply(pat.tt()) "
-                  "for every transform and every well-formed pattern with 0..=3 gates (Kani), which with npn_canonical's contract gives 'every library pattern computes its recorded truth table'.",
-        "assumptions": ["not covered: rewrite.rs (cut enumeration, replacement) and techmap.rs - i.e. the clause 'rewriting plus technology mapping leaves every output function unchanged'",
+                  "for every transform and every well-formed pattern with 0..=3 gates (Kani), which with npn_canonical's contract gives 'every library pattern computes its recorded truth table'. "
+                  "Local kernels of rewriting and technology mapping (unit aigmap, Kani): AigEdge algebra, mk_and/mk_or/mk_xor/mk_mux compute their functions and never change older nodes; "
+                  "techmap.rs match_mux_pair / match_xor_pair are sound and complete, pick_xor_polarity / pick_or_polarity / try_match emit a cell whose function (negated iff output_is_negated) "
+                  "is the root AND's function and absorb only private inner nodes; rewrite.rs instantiate_pattern computes the pattern's function, merge_cuts is the sorted union, "
+                  "try_library_rewrite returns an edge computing the cut function for every truth table, transform and library pattern (with unit npn's postconditions as the assumed "
+                  "library contract); compute_cut_tt bounded (2 ANDs).",
+        "assumptions": ["not covered: the driver loops that compose the local kernels (techmap.rs aig_to_cells_techmap role pass / resolve / sink wiring, rewrite.rs rewrite / compact / enumerate_cuts, convert.rs) - "
+                        "the clause 'leaves every output function unchanged' is decided per local step, the induction over the whole graph is by inspection",
+                        "aigmap stand-ins: association-list HashMap, array-backed Vec, mk_and through its proved contract in the try_library_rewrite harnesses, cell functions written from the CellKind doc comments and lower_cell",
                         "assumed for the library lemma: HashMap behaves as a finite map, the nested enumerate builds only well-formed patterns (by inspection), best is written only at the "
                         "anchored insertion site; OnceLock::get_or_init returns the closure's value; perm_tt/flip_inputs are external_body in the Verus job (their meaning is proved by the Kani job)"],
     },
